@@ -387,6 +387,10 @@ func (c *Ctx) checkSeqReported(fn *ssa.Function, incr []*ssa.Store, lastID, seqI
 		}
 		n++
 		construct := fk(fn) + ": " + what
+		// the id handed down to a helper (`ackPublished(msg, seq)`): the argument at its call site
+		if _, isP := core.Strip(val).(*ssa.Parameter); isP {
+			val = c.rootValue(val)
+		}
 		isLoad := core.IsFieldLoad(lastID)(val)
 		// or the very value the increment stores (`seq := lastID+1` computed once, then `lastID = seq`)
 		isIncrVal := false
